@@ -229,6 +229,37 @@ class Engine:
             return False, self.model_dict(self.solver.model())
         raise SolverUnknown('prove')
 
+    def preferred_model(self, prefs):
+        """A model of the CURRENT path condition that satisfies as many of the soft constraints `prefs` (SBool | z3
+        expr | bool, in priority order) as one greedy pass allows.  Never constrains the path (push/pop); a soft
+        constraint the solver cannot add (unsat or unknown) is skipped.  Used for *preferred witnesses* (C13: the
+        hostile rendering witness); verdicts never depend on it."""
+        s = self.solver
+        m = self.get_model()
+        s.push()
+        try:
+            for p in prefs:
+                e = p.e if _isinstance(p, SBool) else p
+                if e is True or e is False:
+                    continue
+                try:
+                    if z3.is_true(m.eval(e, model_completion=True)):
+                        s.add(e)
+                        continue
+                except z3.Z3Exception:
+                    pass
+                t = time.time()
+                r = s.check(e)
+                self.solver_s += time.time() - t
+                key = 'soft-' + str(r)
+                self.queries[key] = self.queries.get(key, 0) + 1
+                if r == z3.sat:
+                    m = s.model()
+                    s.add(e)
+            return self.model_dict(m)
+        finally:
+            s.pop()
+
     def model_dict(self, m=None):
         if m is None:
             m = self.get_model()
@@ -1025,6 +1056,61 @@ class SampledStr(str):
 
 # ---------------------------------------------------------------------------------- SBytes
 
+# opt-in switch set by a check module at import (C13): SBytes.decode('utf-8'/'ascii') forks on the well-formedness
+# structure and samples the characters instead of enumerating every byte value.  Default: pin (unchanged).
+UTF8_CLASS_DECODE = False
+
+
+def _utf8_walk(items, ascii_only=False, stop_at_error=True):
+    """Fork (complete partition per octet) until the UTF-8 structure of `items` is decided on the path: for every
+    sequence start its lead class (ASCII / C2-DF / E0 / E1-EC,EE-EF / ED / F0 / F1-F3 / F4 / not a lead), for every
+    continuation position whether the octet is inside the range RFC 3629 allows there.  Mirrors CPython's decoder:
+    on an ill-formed sequence decoding resumes at the offending octet ('replace'/'ignore') or stops ('strict')."""
+    def between(x, lo, hi):
+        if type(x) is _int:
+            return lo <= x <= hi
+        return bool(s_and(x >= lo, x <= hi))
+    i, n = 0, _len(items)
+    while i < n:
+        b = items[i]
+        if between(b, 0, 0x7F):
+            i += 1
+            continue
+        need = 0
+        if not ascii_only:
+            if between(b, 0xC2, 0xDF):
+                need, first = 1, (0x80, 0xBF)
+            elif between(b, 0xE0, 0xE0):
+                need, first = 2, (0xA0, 0xBF)
+            elif between(b, 0xE1, 0xEC) or between(b, 0xEE, 0xEF):
+                need, first = 2, (0x80, 0xBF)
+            elif between(b, 0xED, 0xED):
+                need, first = 2, (0x80, 0x9F)
+            elif between(b, 0xF0, 0xF0):
+                need, first = 3, (0x90, 0xBF)
+            elif between(b, 0xF1, 0xF3):
+                need, first = 3, (0x80, 0xBF)
+            elif between(b, 0xF4, 0xF4):
+                need, first = 3, (0x80, 0x8F)
+        if not need:  # not a lead octet
+            if stop_at_error:
+                return
+            i += 1
+            continue
+        j, ok = i + 1, True
+        for k in range(need):
+            if j >= n:
+                ok = False
+                break
+            lo, hi = first if k == 0 else (0x80, 0xBF)
+            if not between(items[j], lo, hi):
+                ok = False
+                break
+            j += 1
+        if not ok and stop_at_error:
+            return
+        i = j
+
 
 def _item_eq(a, b):
     """Equality of two byte items -> True/False/z3 expr."""
@@ -1224,6 +1310,13 @@ class SBytes:
         return SBytes(out)
 
     def decode(self, encoding='utf-8', errors='strict'):
+        if UTF8_CLASS_DECODE and not self.is_concrete() and str(encoding).lower().replace('_', '-') in ('utf-8', 'utf8', 'ascii'):
+            # opt-in (C13): fork on the UTF-8 / ASCII well-formedness STRUCTURE of the octets (complete partition of
+            # every byte into lead/continuation/ASCII/invalid classes), then hand out the text of the model value as
+            # sampled text.  Whether decoding succeeds, and where replacement characters go, is then the same for
+            # all values of the path; the characters themselves are formatting (never constrain the path).
+            _utf8_walk(self.items, ascii_only=str(encoding).lower() == 'ascii', stop_at_error=errors == 'strict')
+            return SampledStr(self.sampled().decode(encoding, errors))
         # peer text: pin (complete) — decoders that turn bytes into str are enumerated by value
         return self.concrete().decode(encoding, errors)
 
